@@ -120,6 +120,9 @@ func (w *world) observeChain() {
 		c.Fail("reorg_notification", "unexpected", "reorg notification start=%d end=%d without a store that follows reverts (pending reverted run: %s)",
 			gotReorg.StartBlockNum, gotReorg.EndBlockNum, blockList(w.revertRun))
 	}
+	if w.spun {
+		c.Fail("livelock", "node_spins_without_park_point", "a node goroutine performed more than %d database reads in one scheduler step without reaching a DataSource call, a commit or a timer", readBudget)
+	}
 }
 
 func blockList(bs []*chaingen.Block) string {
